@@ -6,6 +6,8 @@ import SamlModel.Lib.HtmlTok
 import SamlModel.Generated.Facts
 import SamlModel.Lib.Utf8
 import SamlModel.Lib.XmlMarshal
+import SamlModel.Lib.Url
+import SamlModel.Lib.C14n
 /-!
   `lib <fn> <args>`: the hand-written library models (Lib.*) as protocol operations, so that the harness can
   compare each of them with the Go function it stands for (strconv.Atoi, url.QueryEscape, strings.Fields,
@@ -121,6 +123,33 @@ def run (ts : List String) : Option String :=
     let (s, _) ← (dec [t] : Option (String × _))
     let (v, ok) := atoi s
     pure (toString v ++ " " ++ (if ok then "1" else "0"))
+  | ["qunesc", t] => do
+    let (s, _) ← (dec [t] : Option (String × _))
+    pure (match Lib.Url.queryUnescape s.toList with
+      | some b => "+ x" ++ hexEncode b
+      | none => "-")
+  | ["rverify", t] => do
+    -- the §3.4.4.1 verifier of Lib.Url on a raw query
+    let (s, _) ← (dec [t] : Option (String × _))
+    pure (match Lib.Url.verify s.toList with
+      | some v => "+ x" ++ hexEncode (String.ofList v.octets).toUTF8.toList ++ " x" ++ hexEncode v.alg ++ " x" ++ hexEncode v.sig
+      | none => "-")
+  | ["urlquery", t] => do
+    -- what a URL parser takes as the query of a URL
+    let (s, _) ← (dec [t] : Option (String × _))
+    pure (" ".intercalate (enc (String.ofList (Lib.Url.urlQuery s.toList))))
+  | ["redirurl", a, q] => do
+    -- the redirect target sendBackResponse builds from consumer URL and query
+    let (acs, _) ← (dec [a] : Option (String × _))
+    let (qs, _) ← (dec [q] : Option (String × _))
+    pure (" ".intercalate (enc (String.ofList (Lib.Url.redirectURL acs.toList qs.toList))))
+  | ["c14n", t] => do
+    -- canonical text / attribute value of a conformant verifier, the signer's rendering, and the two "clean" verdicts
+    let (b, _) ← (dec [t] : Option (Bytes × _))
+    let cs := Lib.Utf8.goRunes b
+    pure ("x" ++ hexEncode (Lib.Utf8.encode (Lib.C14n.c14nText cs)) ++ " x" ++ hexEncode (Lib.Utf8.encode (Lib.C14n.c14nAttr cs)) ++
+      " x" ++ hexEncode (Lib.Utf8.encode (Lib.C14n.signerText cs)) ++ " x" ++ hexEncode (Lib.Utf8.encode (Lib.C14n.signerAttr cs)) ++
+      (if Lib.C14n.textClean cs then " 1" else " 0") ++ (if Lib.C14n.attrClean cs then " 1" else " 0"))
   | ["qesc", t] => do
     let (s, _) ← (dec [t] : Option (String × _))
     pure (" ".intercalate (enc (queryEscape s)))
